@@ -573,7 +573,10 @@ def r_zorder_root(rule, root=None):
 
 
 def r_cancel_tiles(rule, root=None):
-    fn = A.find_fn(LIB, "render_tiles", root=root)
+    fn0 = A.find_fn(LIB, "render_tiles", root=root)
+    # read with same-file helpers expanded in place (a per-tile helper is the same per-tile code)
+    fn = dict(fn0)
+    fn["body"] = A.inline_helpers(fn0)
     errs = [c for c in A.find(fn["body"], "Call") if A.is_path(c["func"], "Err")]
     if len(errs) != 2:
         rule.lost("the two cancellation sites in render_tiles (found %d)" % len(errs))
